@@ -781,6 +781,9 @@ def _(i, st, a, c):
     n = a[1]
     if is_z3(n):
         raise Unsupported('take with symbolic count')
+    v = a[0]
+    if not (isinstance(v, Agg) and v.tag == 'ListIter') and not isinstance(v, Ref):
+        return Agg('TakeIter', (v, n))        # adaptor over a crate-local iterator: evaluated lazily through its real `next`
     return list_iter(_as_list(i, st, a[0])[:n])
 
 
@@ -844,13 +847,20 @@ def _(i, st, a, c): return Agg('Vec', _as_list(i, st, a[0]))
 @model(r'<.* as IntoIterator>::into_iter')
 def _(i, st, a, c):
     v = a[0]
-    if isinstance(v, Agg) and v.tag == 'ListIter':
+    if isinstance(v, Agg) and v.tag in ('ListIter', 'TakeIter'):
         return v
     raise Unsupported('into_iter of %r' % (getattr(v, 'tag', v),))
 
 
 @model(r'<.* as Iterator>::next')
 def list_next(i, st, a, c):
+    t0 = i.deref_read(st, a[0]) if isinstance(a[0], Ref) else a[0]
+    if isinstance(t0, Agg) and t0.tag == 'TakeIter':
+        inner, n = t0.items
+        if n == 0:
+            return Var('None', (), 'Option')
+        i.deref_write(st, a[0], Agg('TakeIter', (inner, n - 1)))
+        return i.call(st, "<SimpleCycle2Iterator<'_> as Iterator>::next", [Ref(a[0].base, a[0].path + (0,))], {})
     items = _as_list(i, st, a[0])
     if not items:
         return Var('None', (), 'Option')
@@ -1095,3 +1105,46 @@ def _(i, st, a, c):
 @model(r'<.* as Iterator>::min_by')
 def _(i, st, a, c):
     return _fold_select(i, st, _as_list(i, st, a[0]), a[1], lambda name: name == 'Greater')
+
+
+# ----------------------------------------------------------------------------- Take over a crate-local iterator
+@model(r'<SimpleCycle2Iterator as Iterator>::take')
+def _(i, st, a, c):
+    return Agg('TakeIter', (a[0], a[1]))
+
+
+@model(r'<std::iter::Take as IntoIterator>::into_iter', r'<std::iter::Take<.*> as IntoIterator>::into_iter')
+def _(i, st, a, c): return a[0]
+
+
+@model(r'<std::iter::Take as Iterator>::next', r'<std::iter::Take<.*> as Iterator>::next')
+def _(i, st, a, c):
+    r = a[0]
+    t = i.deref_read(st, r)
+    if isinstance(t, Agg) and t.tag == 'ListIter':
+        return list_next(i, st, a, c)
+    if not (isinstance(t, Agg) and t.tag == 'TakeIter'):
+        raise Unsupported('Take::next on %r' % (t,))
+    inner, n = t.items
+    if is_z3(n):
+        raise Unsupported('Take with symbolic count')
+    if n == 0:
+        return Var('None', (), 'Option')
+    i.deref_write(st, r, Agg('TakeIter', (inner, n - 1)))
+    return i.call(st, "<SimpleCycle2Iterator<'_> as Iterator>::next", [Ref(r.base, r.path + (0,))], {})
+
+
+@model(r'<Vec as IndexMut<std::ops::RangeFrom<usize>>>::index_mut', r'<Vec as Index<std::ops::RangeFrom<usize>>>::index',
+       r'<\[.*\] as IndexMut<std::ops::RangeFrom<usize>>>::index_mut', r'<\[.*\] as Index<std::ops::RangeFrom<usize>>>::index')
+def _(i, st, a, c):
+    r, rng = a
+    start = rng.items[0]
+    if is_z3(start):
+        raise Unsupported('symbolic slice start')
+    v = i.deref_read(st, r)
+    off = r.win[0] if r.win is not None else 0
+    n = len(v.items)
+    if start > n:
+        i.panics.append((tuple(st.pc), 'slice start out of range', st))
+        return []
+    return Ref(r.base, r.path, (off + start, n - start))
